@@ -14,26 +14,60 @@ use serde_json::Value;
 
 use crate::bench::PROFILER;
 
-fn run_script(ops: &[Value]) {
+/// Sizes of a script may be given in units of `unit` bytes (e.g. 2^20): the
+/// real operations use size * unit, the logged sizes and tallies are divided
+/// by the unit again (exactly - the tally arithmetic is linear in the sizes),
+/// so that byte counts far beyond 2^31 stay within TLC's integers.
+fn scaled(t: api::Tally, unit: u64) -> Option<api::Tally> {
+    if unit <= 1 {
+        return Some(t);
+    }
+    let u = unit as i64;
+    let mut r = t;
+    for op in r.ops.iter_mut() {
+        if op[1] % unit != 0 {
+            return None;
+        }
+        op[1] /= unit;
+    }
+    if r.current_size % u != 0 || r.max_size % u != 0 {
+        return None;
+    }
+    r.current_size /= u;
+    r.max_size /= u;
+    Some(r)
+}
+
+fn tally_json(t: api::Tally, unit: u64) -> String {
+    match scaled(t, unit) {
+        Some(t) => t.json(),
+        // not a multiple of the unit: cannot be what the specification expects
+        None => api::Tally { max_size: -777, ..Default::default() }.json(),
+    }
+}
+
+fn run_script(ops: &[Value], unit: u64) {
     api::tally_clear();
     let t = api::tally_current(true).unwrap_or_default();
-    event(Ev::new("alloc_clear").raw("tally", &t.json()));
+    event(Ev::new("alloc_clear").raw("tally", &tally_json(t, unit)));
     let p = std::ptr::NonNull::<u64>::dangling().as_ptr().cast::<u8>();
     for o in ops {
         let op = o["op"].as_str().unwrap_or("alloc");
-        let size = o["size"].as_u64().unwrap_or(0) as usize;
-        let new = o["new"].as_u64().unwrap_or(0) as usize;
+        let size_units = o["size"].as_u64().unwrap_or(0) as usize;
+        let new_units = o["new"].as_u64().unwrap_or(0) as usize;
+        let size = size_units * unit.max(1) as usize;
+        let new = new_units * unit.max(1) as usize;
         let layout = Layout::from_size_align(size, 1).unwrap();
         match op {
             "clear" => {
                 api::tally_clear();
                 let t = api::tally_current(false).unwrap_or_default();
-                event(Ev::new("alloc_clear").raw("tally", &t.json()));
+                event(Ev::new("alloc_clear").raw("tally", &tally_json(t, unit)));
                 continue;
             }
             "peek" => {
                 let t = api::tally_current(false).unwrap_or_default();
-                event(Ev::new("alloc_peek").raw("tally", &t.json()));
+                event(Ev::new("alloc_peek").raw("tally", &tally_json(t, unit)));
                 continue;
             }
             "alloc" => unsafe {
@@ -52,9 +86,9 @@ fn run_script(ops: &[Value]) {
         event(
             Ev::new("alloc_step")
                 .s("op", op)
-                .u("size", size as u128)
-                .u("new", new as u128)
-                .raw("tally", &t.json()),
+                .u("size", size_units as u128)
+                .u("new", new_units as u128)
+                .raw("tally", &tally_json(t, unit)),
         );
     }
 }
@@ -65,12 +99,13 @@ pub fn body(sc: Arc<Value>) {
         .as_array()
         .map(|a| a.iter().map(|s| s.as_array().cloned().unwrap_or_default()).collect())
         .unwrap_or_default();
+    let unit = sc["unit"].as_u64().unwrap_or(1);
     let mut handles = Vec::new();
     for script in scripts.iter().skip(1).cloned() {
-        handles.push(vstd::thread::spawn(move || run_script(&script)));
+        handles.push(vstd::thread::spawn(move || run_script(&script, unit)));
     }
     if let Some(first) = scripts.first() {
-        run_script(first);
+        run_script(first, unit);
     }
     for h in handles {
         let _ = h.join();
